@@ -299,6 +299,10 @@ def seq_elem(I, st, v, ip=None, label=False):
         return placeholder(st, t, "label" if is_lbl else "nat")
     if is_lbl:
         return VUser(("get", t, ip))
+    if t[0] == "fill":
+        return VNat(as_poly(t[1]))          # every element of a constant array is the constant
+    if t[0] == "arange":
+        return VNat(as_poly(t[1]) + as_poly(ip))
     a = Poly.atom(("get", t, ip))
     for b in ubs(st, t):
         st.add_ge(b - a - 1)
@@ -877,6 +881,39 @@ def h_sort_unstable_by_key(I, st, fr, e, c, a):
             I.write_place(st, place, VSeq(("zip", k, mk_gather(st, t[2][1], k))))
             return [(st, UNIT, None)]
     raise NotImplementedError("sort_unstable_by_key with possibly equal keys")
+
+
+def h_split_off(I, st, fr, e, c, a):
+    """v.split_off(k): returns v[k..], v keeps v[..k]; panics when k > len."""
+    place, cur = place_of(I, st, a[0])
+    k = deref(I, st, a[1])
+    if not isinstance(cur, VSeq) or not isinstance(k, VNat):
+        raise NotImplementedError("split_off")
+    n = t_len(cur.t)
+    I.pre_ge(st, fr, e, "split_off", n, k.p, f"{show_poly(k.p)} <= len({show_term(cur.t)})")
+    import prims
+    I.write_place(st, place, VSeq(prims.mk_slice(st, cur.t, Poly.const(0), k.p)))
+    return [(st, VSeq(prims.mk_slice(st, cur.t, k.p, n)), None)]
+
+
+def h_windows(I, st, fr, e, c, a):
+    """slice.windows(2) over naturals: the list of the pairs [x[i], x[i+1]] (as two-element slices)."""
+    v = deref(I, st, a[0])
+    k = deref(I, st, a[1])
+    if not (isinstance(v, VSeq) and isinstance(k, VNat) and k.p == Poly.const(2)) or label_of(v.t):
+        raise NotImplementedError("windows")
+    n = t_len(v.t)
+    if st.eq(n, 0) or st.eq(n, 1):
+        return [(st, VSeq(EMPTY), None)]
+    if not st.ge(n, 1):
+        raise NotImplementedError("windows of a possibly empty slice")
+    import prims
+    A = prims.mk_slice(st, v.t, Poly.const(0), n - 1)
+    B = prims.mk_slice(st, v.t, Poly.const(1), n)
+    Z = ("zip", A, B)
+    el = seq_elem(I, st, VSeq(Z), None)
+    pair = VSeq(mk_concat([("fill", el.items[0].p, Poly.const(1)), ("fill", el.items[1].p, Poly.const(1))]))
+    return [(st, VSeq(("lmap", Z, freeze(pair))), None)]
 
 
 def h_dedup(I, st, fr, e, c, a):
@@ -1508,6 +1545,8 @@ TABLE = {
     "core::slice::<impl [T]>::sort_unstable": h_sort_nat,
     "std::slice::<impl [T]>::sort": h_sort_nat,
     "std::vec::Vec::<T, A>::dedup": h_dedup,
+    "std::vec::Vec::<T, A>::split_off": h_split_off,
+    "core::slice::<impl [T]>::windows": h_windows,
     "core::slice::<impl [T]>::sort_unstable_by_key": h_sort_unstable_by_key,
     "std::vec::Vec::<T, A>::reserve": h_capacity_noop,
     "std::vec::Vec::<T, A>::reserve_exact": h_capacity_noop,
